@@ -307,7 +307,9 @@ GROUPS = {
                           "sym_str + ' * (' + str(self.x_[row]) + ' - (' + str(particular_solution) + '))' + ' + (' + str(particular_solution) + ')'":
                               "(Propagator.Term.affine row particular_solution)"},
                 stmt_map={"sym_str = '__P__{}__{}'.format(str(self.x_[row]), str(self.x_[col]))": [],
-                          "sym_str = '__P__{}__{}'.format(str(self.x_[row]), str(self.x_[row]))": [],
+                          "sym_str = P_name.get((row, row), '__P__{}__{}'.format(str(self.x_[row]), str(self.x_[row])))": [],
+                          "while sym_str in P_expr:\n    sym_str += '_'": [],
+                          "P_name[row, col] = sym_str": [],
                           "P_sym[row, col] = sympy.parsing.sympy_parser.parse_expr(sym_str, global_dict=Shape._sympy_globals)": [],
                           "P_expr[sym_str] = P[row, col]": [("P_expr", "(P_expr ++ [(row, col)])")],
                           "update_expr[str(self.x_[row])] = ' + '.join(update_expr_terms)": [("update_expr", "(update_expr ++ [(row, update_expr_terms)])")],
@@ -321,7 +323,9 @@ GROUPS = {
                 result_type="List (Fin n × Fin n) × List (Fin n × List (Propagator.Term n K))",
                 doc="the assembly loop. Entries of `A`, `b` are values of a type `K`; `_is_zero` tests are `= 0` (for `c` and `P`: the Boolean patterns "
                     "`cnz`, `Pnz`); the four string concatenations appended to `update_expr_terms` are the constructors of `Propagator.Term` (an edit "
-                    "of any of these strings makes the translation fail); `P_expr` collects the (row, col) pairs whose propagator symbol is defined; "
+                    "of any of these strings makes the translation fail); `P_expr` collects the (row, col) pairs whose propagator symbol is defined - the model names a "
+                    "propagator by its pair, which is what the three naming statements (the format string, the loop that makes a name unique, the `P_name` table) "
+                    "achieve since the F17 fix; "
                     "re-parsing and `_custom_simplify_expr` of the joined string are denotation-preserving contracts (dropped)")),
         ],
     },
